@@ -165,9 +165,9 @@ func Delete%[1]ssByIDs(tx DB, ids ...%[2]s) ([]%[2]s, error) {
 			if key.IsUnique {
 				content += fmt.Sprintf(`
 				// By%[1]s returns a map with '%[1]s' as keys.
-				func (items %[2]ss) By%[1]s() map[%[3]s]%[2]s {
-					out := make(map[%[3]s]%[2]s, len(items))
-					for _, target := range items {
+				func (items_ %[2]ss) By%[1]s() map[%[3]s]%[2]s {
+					out := make(map[%[3]s]%[2]s, len(items_))
+					for _, target := range items_ {
 						out[target.%[1]s] = target
 					}
 					return out
@@ -175,9 +175,9 @@ func Delete%[1]ssByIDs(tx DB, ids ...%[2]s) ([]%[2]s, error) {
 			} else {
 				content += fmt.Sprintf(`
 				// By%[1]s returns a map with '%[1]s' as keys.
-				func (items %[2]ss) By%[1]s() map[%[3]s]%[2]ss {
+				func (items_ %[2]ss) By%[1]s() map[%[3]s]%[2]ss {
 					out := make(map[%[3]s]%[2]ss)
-					for _, target := range items {
+					for _, target := range items_ {
 						dict := out[target.%[1]s]
 						if dict == nil {
 							dict = make(%[2]ss)
@@ -194,9 +194,9 @@ func Delete%[1]ssByIDs(tx DB, ids ...%[2]s) ([]%[2]s, error) {
 			// %[1]ss returns the list of ids of %[1]s
 			// contained in this table.
 			// They are not garanteed to be distinct.
-			func (items %[2]ss) %[1]ss() []%[3]s {
-				out := make([]%[3]s, 0, len(items))
-				for _, target := range items {
+			func (items_ %[2]ss) %[1]ss() []%[3]s {
+				out := make([]%[3]s, 0, len(items_))
+				for _, target := range items_ {
 					out = append(out, target.%[1]s)
 				}
 				return out
